@@ -107,7 +107,7 @@ def filters_field(fs):
 
 
 def mk_line(op, items, fs):
-    return "flt\t%s\t%s\t%s" % (op, " ".join(tree_tokens(items)), filters_field(fs))
+    return "tfl\t%s\t%s\t%s" % (op, " ".join(tree_tokens(items)), filters_field(fs))
 
 
 # ------------------------------------------------------------------ reference (python, model-free)
